@@ -150,6 +150,20 @@ FAULT_TYPES = {
 }
 
 
+def _promoted_stop(kind: Any) -> Any:
+    def make(message: str) -> BaseException:
+        # what a generator-based source raises when a Stop(Async)Iteration escapes its body (PEP 479 / 525): a
+        # RuntimeError whose cause is that exception - a FAILURE of the source, not its end
+        exc = RuntimeError(f"generator raised {kind.__name__} ({message})")
+        exc.__cause__ = kind()
+        return exc
+    return make
+
+
+FAULT_TYPES["RuntimeError_caused_by_StopIteration"] = _promoted_stop(StopIteration)
+FAULT_TYPES["RuntimeError_caused_by_StopAsyncIteration"] = _promoted_stop(StopAsyncIteration)
+
+
 # ---------------------------------------------------------------------------
 # sources
 # ---------------------------------------------------------------------------
@@ -388,6 +402,38 @@ class AsyncSrcFull(AsyncSrc):
         if isinstance(typ, BaseException):
             raise typ
         raise typ()
+
+
+class AsyncSrcAiterOnce(AsyncSrc):
+    """An iterator whose ``__aiter__`` is NOT idempotent once iteration has begun (it would rewind / re-open): asking an
+    iterator that is being read for "its iterator" again is reported.  For consumers that fetch with ``__anext__`` only."""
+
+    def __aiter__(self) -> "AsyncSrc":
+        if self.st.started:
+            CTX.foreign.append(f"__aiter__ of source {self.st.sid} was called again after iteration had begun")
+        return self
+
+
+class AsyncSrcAwaitable(AsyncSrc):
+    """An async iterator that is AWAITABLE too (a cursor / task-style handle: ``await cursor`` gives a summary): handed to a
+    tool as something to iterate, it is iterated - nobody asked for it to be awaited.  (Not for ``any_iter``, whose
+    contract is to await an awaitable argument.)"""
+
+    def __await__(self) -> Any:
+        CTX.foreign.append(f"the asynchronous iterator {self.st.sid} was awaited instead of being iterated")
+        return ("summary", self.st.sid)
+        yield  # pragma: no cover
+
+
+class AsyncSrcSized(AsyncSrc):
+    """A class based async iterator that reports how many items it still holds (a reader over a known range): knowing
+    the length is no reason to treat it differently - it is owned, iterated lazily and closed like any other."""
+
+    def __len__(self) -> int:
+        return max(0, len(self.st.items) - self.st.pos)
+
+    def __bool__(self) -> bool:
+        return len(self) > 0
 
 
 class AsyncSrcBareFull(AsyncSrcBare):
@@ -678,7 +724,7 @@ async def _async_gen(st: SrcState):
 
 FLAVOURS_SYNC = ("list", "tuple", "getitem_seq", "sync_iter", "sync_gen", "sync_iterable", "tuple_sub", "list_sub")
 FLAVOURS_ASYNC = ("async_gen", "async_class", "async_class_bare", "async_class_full", "async_class_asend",
-                  "async_class_future", "async_class_proxy", "async_class_lazy", "async_iterable", "async_class_lateclose", "async_class_delegating", "async_class_plainnext", "async_class_eagerstart", "async_class_bare_full")
+                  "async_class_future", "async_class_proxy", "async_class_lazy", "async_iterable", "async_class_lateclose", "async_class_delegating", "async_class_plainnext", "async_class_eagerstart", "async_class_bare_full", "async_class_sized", "async_class_aiter_once", "async_class_awaitable")
 FLAVOURS = FLAVOURS_SYNC + FLAVOURS_ASYNC
 
 
@@ -718,6 +764,12 @@ def make_source(st: SrcState, flavour: str) -> Any:
         return AsyncSrcFull(st)
     if flavour == "async_class_bare_full":
         return AsyncSrcBareFull(st)
+    if flavour == "async_class_sized":
+        return AsyncSrcSized(st)
+    if flavour == "async_class_aiter_once":
+        return AsyncSrcAiterOnce(st)
+    if flavour == "async_class_awaitable":
+        return AsyncSrcAwaitable(st)
     if flavour == "async_class_asend":
         return AsyncSrcAsend(st)
     if flavour == "async_class_future":
